@@ -51,7 +51,7 @@ def strategy(tier):
                                                            "sb2": so.stream_st(True, max_len=5)}))})
     cms = st.fixed_dictionaries({
         "t": st.just("cms"), "w": st.one_of(st.integers(1, 3), st.integers(1, 8)), "d": st.integers(1, 5),
-        "hash": gen.hash_name_st(), "pool": gen.pool_st(2, 10), "qt": st.sampled_from(["min", "mean", "mean-min"]),
+        "hash": gen.hash_name_st(), "pool": gen.pool_st(2, 10), "qt": st.sampled_from(["min", "mean", "mean-min"]), "raw": st.booleans(),
         "sa": so.stream_st(True), "sb": so.stream_st(True), "sx": so.stream_st(True, max_len=4), "chain": st.sampled_from([0, 0, 1, 2])})
     return st.one_of(bloom, cb, cms)
 
@@ -152,6 +152,13 @@ def run_case(case, ctx):
                 ctx.check(name, U3 is not None and so.cells(U3, kind_u) == cs2, "second union with swapped operands differs")
                 ctx.feat("second_round_%s%s" % ("clearA" if p2["ca"] else "", "clearB" if p2["cb"] else ""))
         else:
+            if case.get("raw"):
+                # count-min counters are signed: removals are applied AS GENERATED (also beyond what was added), so operands can
+                # have negative bins and a net total of zero with non-zero bins; only the metamorphic equality applies then
+                ra = [[k % len(pool), n] for k, n in case["sa"]]
+                rb = [[k % len(pool), n] for k, n in case["sb"]]
+                rx = [[k % len(pool), n] for k, n in case.get("sx", [])]
+                ctx.feat("cms_raw_removals")
             A, B, S = (so.make_cms(case["w"], case["d"], case["hash"]) for _ in range(3))
             qt = case["qt"] if case["w"] >= 2 else "min"  # mean-min divides by (width - 1): width 1 is outside its domain
             for o in (A, B, S):
@@ -179,10 +186,15 @@ def run_case(case, ctx):
             ctx.check("C12.cms_join", bytes(B) == jb, "adding to the RECEIVER after the join changed the argument (shared counters)")
             A.remove(pool[-1], 1)
             B.remove(pool[0], 2)
-            ctx.check("C12.cms_join", A.elements_added == S.elements_added == sum(ta.values()) + sum(tb.values()), "element total after join")
+            ctx.check("C12.cms_join", A.elements_added == S.elements_added, "element total after join")
+            if not case.get("raw"):
+                ctx.check("C12.cms_join", A.elements_added == sum(ta.values()) + sum(tb.values()), "element total after join vs true counts")
+            if B.elements_added == 0 and any(bb[:-16]):
+                ctx.feat("cms_argument_net_zero_with_nonzero_bins")
             A.query_type = "min"
             for i, k in enumerate(pool):
-                ctx.check("C12.cms_join", A.check(k) >= ta[i] + tb[i], lambda: f"estimate for {k!r} below the summed true counts")
+                if not case.get("raw"):
+                    ctx.check("C12.cms_join", A.check(k) >= ta[i] + tb[i], lambda: f"estimate for {k!r} below the summed true counts")
             w = case["w"]
             both = any(ba[i:i + 4] != b"\0\0\0\0" and bb[i:i + 4] != b"\0\0\0\0" for i in range(0, 4 * w * case["d"], 4))
             ctx.feat("cms_qt_" + case["qt"])
